@@ -233,7 +233,7 @@ class Ctx(object):
         self.violation(nm, info, confirmed)
 
     # ---------------------------------------------------------------- table invariants / judgements
-    def item(self, ident, ok, detail="", sample=None, confirm=None):
+    def item(self, ident, ok, detail="", sample=None, confirm=None, shape=False):
         """One closed obligation decided by evaluation (table row x clause, effect judgement).  For a table row the
         witness is the row itself (real data).  For a judgement about code, `confirm` (called only on failure) looks
         for a failing input on the real code: -> {"inputs":..., "violation":...} or None."""
@@ -259,6 +259,11 @@ class Ctx(object):
             if res and res.get("violation"):
                 self.violation(ident, {"detail": detail, "site": sample, "inputs": res.get("inputs"),
                                        "observed": res["violation"]}, confirmed=True)
+            elif shape:
+                # the item recognises one way of writing the code; another way that no bounded run can fault is not a
+                # violation: the question is open (exit 2), not answered
+                self.obligations -= 1
+                self.undecided.append("%s: code shape not recognised and no failing input found (%s)" % (ident, detail[:160]))
             else:
                 self.violation(ident, {"detail": detail, "site": sample, "replay_attempt": res}, confirmed=False)
             return
